@@ -67,13 +67,19 @@ class World:
         self.at_exp = p.issue(self.aa1, app=[36], start=now - 100000, duration=("seconds", 3600))
         self.at_fut = p.issue(self.aa1, app=[36], start=now + 5000, duration=("minutes", 10))
         self.at_refused = p.issue(self.aa1, app=[36, 99], **live)                              # API refuses: stays unsigned
+        # an authority whose validity has ended and a live ticket under it (expiry of CA certificates is not checked by
+        # the library and not demanded by the property text: exercised, compared with the model, judged by the chain oracle)
+        self.aa_exp = p.issue(self.root, "aa-expired", issue=[sc.perm_explicit([36, 37], 1)], start=now - 100000,
+                              duration=("seconds", 3600))
+        self.at_xaa = p.issue(self.aa_exp, app=[36], **live)
         # attacker PKI
         self.eroot = p.root("evil-root", issue=[sc.perm_all(3)], **live)
         self.eaa = p.issue(self.eroot, "evil-aa", issue=[sc.perm_all(1)], **live)
         self.eat = p.issue(self.eaa, app=[36, 37], **live)
-        own = [self.at_a, self.at_b, self.at_x, self.at_y, self.at_c, self.at_d, self.at_r, self.at_exp, self.at_fut, self.eat]
+        own = [self.at_a, self.at_b, self.at_x, self.at_y, self.at_c, self.at_d, self.at_r, self.at_exp, self.at_fut, self.eat,
+               self.at_xaa]
         self.honest = [self.aa1, self.aa2, self.aa3, self.at_a, self.at_b, self.at_x, self.at_y, self.at_c, self.at_d,
-                       self.at_r, self.at_exp, self.at_fut]
+                       self.at_r, self.at_exp, self.at_fut, self.aa_exp, self.at_xaa]
         self.signers = own                      # tickets whose private key the harness holds
         aa1d = ("sha256AndDigest", self.aa1.as_hashedid8())
         raw = []
@@ -93,6 +99,14 @@ class World:
         self.escal = mk(dict(app=[36, 99], **live), aa1d, self.aa1.key_id, self.aa1)
         # wrongly issued sub-CA with the `all` issuing permission under the explicit aa1
         self.suball = mk(dict(name="sub-all", app=[36], issue=[sc.perm_all(5)], **live), aa1d, self.aa1.key_id, self.aa1)
+        # wrongly issued sub-CAs whose issuing permissions MIX an explicit group (inside aa1's scope) with an `all` group,
+        # in both orders: requesting `all` in ANY group exceeds an explicit issuer
+        self.submix1 = mk(dict(name="sub-mix1", issue=[sc.perm_explicit([36], 1), sc.perm_all(1)], **live), aa1d,
+                          self.aa1.key_id, self.aa1)
+        self.submix2 = mk(dict(name="sub-mix2", app=[36], issue=[sc.perm_all(1), sc.perm_explicit([36], 1)], **live), aa1d,
+                          self.aa1.key_id, self.aa1)
+        self.at_submix = mk(dict(app=[99], **live), ("sha256AndDigest", self.submix1.as_hashedid8()), self.submix1.key_id,
+                            self.submix1)
         # genuine sub-CA under aa1 (explicit subset, no appPermissions) and a ticket below it
         self.subok = mk(dict(name="sub-ok", issue=[sc.perm_explicit([36], 1)], **live), aa1d, self.aa1.key_id, self.aa1)
         self.at_sub = mk(dict(app=[36], **live), ("sha256AndDigest", self.subok.as_hashedid8()), self.subok.key_id, self.subok)
@@ -109,8 +123,9 @@ class World:
         # empty appPermissions list
         self.emptyapp = mk(dict(app=[], **live), aa1d, self.aa1.key_id, self.aa1)
         self.raw = raw
-        self.cas = [self.root, self.root2, self.aa1, self.aa2, self.aa3, self.eroot, self.eaa, self.subok, self.suball]
-        self.objs = [self.root, self.root2, self.aa1, self.aa2, self.aa3, self.eroot, self.eaa] + own + [self.at_refused] + raw
+        self.cas = [self.root, self.root2, self.aa1, self.aa2, self.aa3, self.eroot, self.eaa, self.subok, self.suball,
+                    self.aa_exp, self.submix1, self.submix2]
+        self.objs = [self.root, self.root2, self.aa1, self.aa2, self.aa3, self.eroot, self.eaa, self.aa_exp] + own + [self.at_refused] + raw
         self.A = sc.Abs()
         self.A.register_backend(p.backend)
         for o in self.objs:
@@ -132,7 +147,7 @@ def honest_world(ctx, w):
     """every honest certificate obtained from the issuing API (permissions inside the UNION of the issuer's groups)
     must come back signed and chain to its root -- judged by the independent chain checker"""
     roots = {sc.hid8(r.certificate): r.certificate for r in (w.root, w.root2)}
-    cas = {sc.hid8(a.certificate): a.certificate for a in (w.aa1, w.aa2, w.aa3)}
+    cas = {sc.hid8(a.certificate): a.certificate for a in (w.aa1, w.aa2, w.aa3, w.aa_exp)}
     for c in w.honest:
         ok, why = sc.chain_ok(c.certificate, roots, cas)
         ctx.evals()
@@ -206,7 +221,9 @@ def gen_history(ctx, w, n_ops):
     ops.append(("new", roots, aas, ats))
     genuine_chain = [(w.at_a, w.aa1, w.root), (w.at_b, w.aa1, w.root), (w.at_x, w.aa1, w.root), (w.at_y, w.aa1, w.root), (w.at_c, w.aa2, w.root), (w.at_d, w.aa3, w.root2),
                      (w.eat, w.eaa, w.eroot), (w.at_sub, w.subok, w.aa1), (w.escal, w.aa1, w.root),
-                     (w.suball, w.aa1, w.root), (w.at_exp, w.aa1, w.root), (w.forged, w.aa1, w.root)]
+                     (w.suball, w.aa1, w.root), (w.at_exp, w.aa1, w.root), (w.forged, w.aa1, w.root),
+                     (w.at_xaa, w.aa_exp, w.root), (w.submix1, w.aa1, w.root), (w.submix2, w.aa1, w.root),
+                     (w.at_submix, w.submix1, w.aa1)]
     for _ in range(n_ops):
         r = rng.random()
         if r < 0.07:
@@ -518,6 +535,51 @@ def witness(kind):
                     m = sc.make_signed(p.backend, t.key_id, {"psid": app[0], "generationTime": gt}, b"abc", ("certificate", [t.certificate]))
                     if st2.verify(m).report.value != 0:
                         bad.append(f"message of the honest ticket for {app} rejected")
+        elif kind == "mixall":
+            # sub-CA whose issuing permissions mix an explicit group with an `all` group (both orders) under an AA limited
+            # to {36,37}: requesting `all` in ANY group exceeds the issuer
+            for groups in ([sc.perm_explicit([36], 1), sc.perm_all(1)], [sc.perm_all(1), sc.perm_explicit([36], 1)]):
+                d, k = p.blank(sc.tbs("sub-mix", issue=groups, **live), ("sha256AndDigest", aa.as_hashedid8()))
+                sub = p.raw(aa.key_id, d, aa)
+                if sub.verify(p.backend):
+                    bad.append(f"Certificate.verify accepts a sub-CA with issuing permissions {[g['subjectPermissions'][0] for g in groups]} "
+                               "under an issuer limited to [36,37]")
+                st.lib.add_authorization_authority(sub)
+                if sub.as_hashedid8() in st.lib.known_authorization_authorities:
+                    bad.append(f"sub-CA with issuing permissions {[g['subjectPermissions'][0] for g in groups]} stored as trusted AA "
+                               "under an issuer limited to [36,37]")
+        elif kind == "emptyapp":
+            # a ticket whose appPermissions list is present but EMPTY authorises nothing
+            t0_ = p.issue(aa, app=[], **live)
+            for psid in (36, 37, 638, 0):
+                hi = {"psid": psid, "generationTime": gt}
+                if psid == 37:
+                    hi["generationLocation"] = {"latitude": 415000000, "longitude": 21000000, "elevation": 0xF000}
+                m = sc.make_signed(p.backend, t0_.key_id, hi, b"abc", ("certificate", [t0_.certificate]))
+                try:
+                    if st.verify(m).report.value == 0:
+                        bad.append(f"message with ITS-AID {psid} accepted under a ticket whose appPermissions are []")
+                except Exception:  # noqa: BLE001 - raising is not accepting
+                    pass
+        elif kind == "foreignatt":
+            # a ticket NAMING the trusted AA as issuer, signed by an attacker CA, offered with that CA attached
+            eroot = p.root("evil-root", **live)
+            eaa = p.issue(eroot, "evil-aa", issue=[sc.perm_all(1)], **live)
+            d, k = p.blank(sc.tbs(app=[36], **live), ("sha256AndDigest", aa.as_hashedid8()))
+            forged = p.raw(eaa.key_id, d, eaa, own_key_id=k)
+            for name, fn, dct in (("add_authorization_ticket", st.lib.add_authorization_ticket, st.lib.known_authorization_tickets),
+                                  ("add_own_certificate", st.lib.add_own_certificate, st.lib.own_certificates)):
+                fn(forged)
+                if forged.as_hashedid8() in dct:
+                    bad.append(f"{name} stores a ticket that names the trusted AA but is signed by (and attached to) a foreign CA")
+            d2, k2 = p.blank(sc.tbs("fake-aa", issue=[sc.perm_explicit([36], 1)], **live), ("sha256AndDigest", root.as_hashedid8()))
+            fake_aa = p.raw(eroot.key_id, d2, eroot)
+            st.lib.add_authorization_authority(fake_aa)
+            if fake_aa.as_hashedid8() in st.lib.known_authorization_authorities:
+                bad.append("add_authorization_authority stores an AA that names the trusted root but is signed by a foreign root")
+            m = sc.make_signed(p.backend, k, {"psid": 36, "generationTime": gt}, b"abc", ("digest", forged.as_hashedid8()))
+            if st.verify(m).report.value == 0:
+                bad.append("message signed with the forged ticket accepted")
         else:
             raise Infra(f"unknown witness {kind}")
     return bad
